@@ -323,9 +323,9 @@ func runC03(e *sim.Env) {
 func init() {
 	register(&Prop{
 		ID: "C03", Run: runC03, Quick: 320, Thorough: 8000, Level: "fault_enumeration",
-		Rule: "one run = one sampled history (network, fork tree with all transaction kinds, corrupted twins, submission plan, ending on a chain made dominant) executed with simulated clock jumps >= 5 s between drawn ApplyBlock/RevertBlock calls (so the store's own time-based flush commits inside reorgs) and optionally one injected I/O error; EVERY distinct committed image of that history (simdisk: content-hashed images at each Flush; 1 run in 8: real bbolt, file copy after each commit, first 10) is reopened and checked: opens without error, tip is the tip held at that commit, C01 audit, every best-chain supplement present, served view == linear twin and reference ledger, then the remaining plan is re-submitted and the final view must equal the uninterrupted run's; distinct = abstract trace of (mid-reorg?, height bucket, regime) per image; non-trivial = at least two images or one image committed by the store between two applies/reverts",
-		Real: []string{"chain.Manager", "chain.DBStore", "coreutils.BoltChainDB + bbolt (1 run in 8)"},
-		Stub: []string{"disk: simdisk.DB with explicit committed image / pending overlay (7 runs in 8)"},
+		Rule:        "one run = one sampled history (network, fork tree with all transaction kinds, corrupted twins, submission plan, ending on a chain made dominant) executed with simulated clock jumps >= 5 s between drawn ApplyBlock/RevertBlock calls (so the store's own time-based flush commits inside reorgs) and optionally one injected I/O error; EVERY distinct committed image of that history (simdisk: content-hashed images at each Flush; 1 run in 8: real bbolt, file copy after each commit, first 10) is reopened and checked: opens without error, tip is the tip held at that commit, C01 audit, every best-chain supplement present, served view == linear twin and reference ledger, then the remaining plan is re-submitted and the final view must equal the uninterrupted run's; distinct = abstract trace of (mid-reorg?, height bucket, regime) per image; non-trivial = at least two images or one image committed by the store between two applies/reverts",
+		Real:        []string{"chain.Manager", "chain.DBStore", "coreutils.BoltChainDB + bbolt (1 run in 8)"},
+		Stub:        []string{"disk: simdisk.DB with explicit committed image / pending overlay (7 runs in 8)"},
 		Assumptions: []string{"the size-based flush trigger (100 MB) is not reached at simulation scale; the time-based trigger exercises the same commit site", "bbolt commit atomicity is trusted", "a process stop loses exactly the writes since the last successful chain.DB.Flush"},
 	})
 }
